@@ -12,6 +12,7 @@ pub mod stream;
 pub mod acks;
 pub mod durability;
 pub mod cache;
+pub mod blocking;
 
 #[derive(Clone, Debug, Serialize, Deserialize, PartialEq)]
 pub struct Violation {
@@ -59,6 +60,7 @@ pub fn all() -> Vec<ScenarioDef> {
     v.extend(acks::defs());
     v.extend(durability::defs());
     v.extend(cache::defs());
+    v.extend(blocking::defs());
     v
 }
 
